@@ -34,7 +34,10 @@ SEQP = ["ffffffff", "fffffffe", "00000000", "mixed"]
 
 def dims():
     return {"ss_signed": [0, 1, 23, 107, 252, 253, 300], "ss_other": [0, 1, 23, 107, 252, 253, 300, 65536], "seq": SEQP, "amount": [600000000, 0, 1, 546, 2100000000000000, -1],
-            "version": [1, 2, 2 ** 32 - 1], "locktime": [0, 2 ** 32 - 1, -1], "sc": [26, 2, 253, 256, 603], "vout": [0, 1, 5, 2 ** 32 - 1]}
+            "version": [1, 2, 2 ** 32 - 1], "locktime": [0, 2 ** 32 - 1, -1], "sc": [26, 2, 253, 256, 603], "vout": [0, 1, 5, 2 ** 32 - 1],
+            # the scriptCode's CONTENT: filler of the chosen length, or a script that is itself a standard template (a witness
+            # script may be any script, e.g. OP_0 <20 bytes>): a signer that "recognises" templates rewrites exactly these
+            "sc_kind": ["filler", "p2wpkh-program", "p2wsh-program", "p2pkh", "p2sh", "p2pk", "p2tr-program", "p2sh-p2wpkh-scriptsig", "empty"]}
 
 
 def build(seed, n_in, n_out, index, a):
@@ -52,6 +55,12 @@ def build(seed, n_in, n_out, index, a):
     T = Tx(a["version"], ins, outs, lt)
     amount = a["amount"] if a["amount"] >= 0 else int.from_bytes(f("amt", 6), "little")
     body = f("sc", a["sc"] - (1 if a["sc"] <= 253 else 3))
+    k = a.get("sc_kind", "filler")
+    if k != "filler":
+        h20, h32 = f("sc-h20", 20), f("sc-h32", 32)
+        body = {"p2wpkh-program": b"\x00\x14" + h20, "p2wsh-program": b"\x00\x20" + h32, "p2pkh": b"\x76\xa9\x14" + h20 + b"\x88\xac",
+                "p2sh": b"\xa9\x14" + h20 + b"\x87", "p2pk": b"\x21\x02" + h32 + b"\xac", "p2tr-program": b"\x51\x20" + h32,
+                "p2sh-p2wpkh-scriptsig": b"\x16\x00\x14" + h20, "empty": b""}[k]
     sc = compact(len(body)) + body
     return T, amount, sc
 
